@@ -17,6 +17,13 @@ MIN_NONTRIVIAL = {"quick": 20, "thorough": 800}
 BLOB = (100, 400)
 NO_SHRINK = True          # thread failures are statistical: the failing configuration is reported as generated
 REPLAY_TRIES, REPLAY_NEED = 10, 1
+
+
+def self_evident(sig, text):
+    """a ThreadSanitizer report whose racing access lies in the library is evidence by itself: it names two conflicting accesses
+    that were not ordered by the mutex in an execution that really happened, whether or not the schedule recurs on replay"""
+    import re
+    return sig == "data-race" and re.search(r"SUMMARY: ThreadSanitizer: data race \S*/src/cat\.c:", text) is not None
 CAPS = (1, 2, 3, 8)
 RULE = ("Hypothesis generates configurations: ring capacity 1/2/3/8 (one ThreadSanitizer executable each), 1-8 producer threads, each with an op list (trigger "
         "READ/TEST through all three trigger functions, cat_is_unsolicited_buffer_full, cat_is_busy, cat_is_hold, cat_hold_exit OK/ERROR, sched_yield and "
